@@ -488,6 +488,13 @@ theorem chain_pool_exclusive (steps : List PoolStep) :
   (pool_run_inv steps {} (by simp [PoolInv])).1
 
 open SdnsVerif.Gen.C10 in
+/-- the same pool discipline for the upstream read buffers (`dnsclient.AcquireBuf /
+ReleaseBuf`, to which `chain_pool_exclusive` applies verbatim): no function of the
+package releases a buffer both by `defer` and on a branch -/
+theorem upstream_buffers_released_once : dnsclient_defer_and_branch_release = [] := by
+  decide
+
+open SdnsVerif.Gen.C10 in
 /-- the decoded entries draw one chain and return it exactly once (tie of the
 `put` guard above to the tree) -/
 theorem chain_pool_put_once :
